@@ -25,6 +25,23 @@ neither may happen — and end with `shout(x)`):
               `functions` above it — stage order)
 Not reachable first at the default caps (proved / argued in Props/C18.lean): cfg ops and ops in one
 function (statements has the same cap and comes first), cfg blocks (≤ 2 + 2·scopes + statements).
+
+  scc   below-limit programs whose call graph has a LARGE strongly connected component (rings and
+        denser cycles of 50-1000 mutually recursive functions, optionally a second side-effect-free
+        component, optionally reaching every independent function) next to many independent /
+        acyclically calling functions, sized from 1 % of the summary-event cap up to the last size
+        below it (and the first above), or sitting on a second cap (statements, blocks of one
+        function, liveness events, locals, scopes).  Each carries a *payload* whose analysis results
+        depend on the component's summaries (dead stores separated from their overwrite only by a
+        call into the component, directly / through a caller / through a caller of a caller; an
+        unused variable in a function that calls it; an unused result of a call into the
+        side-effect-free component; random payloads) and a *twin*: the same payload around a
+        component of 3.  Metamorphic oracle (harness): while the Lean limit model says no cap is
+        exceeded, the payload's warnings (message, label, span relative to the payload), the pruned
+        statements / definitions of the payload, the warnings and prunings outside it (as a
+        multiset / count) and the payload's output are those of the twin - the size of a component
+        must not matter below the limits; exactly one resource-limit warning, no pass warning and
+        no plan iff the model says a cap is exceeded (correspondence of the answer line).
 """
 import json
 import os
@@ -46,6 +63,37 @@ QUICK_E2E = ["liveness", "summaryf", "summary", "fnblocks", "locals", "statement
 SLOW_E2E = ["scopes", "functions"]        # seconds each (quadratic scans in the resolver / model)
 RELEASE_E2E = ["calls"]                   # ~20 s per program even in release (record_user_call is quadratic)
 
+# scc specs (harness/src/limits.rs `Scc`): k component size, kp side-effect-free component, d edge
+# shape (1 ring, 2 +chord, 3 both directions+chord, 4 eight successors, 5 backward ring), hub: the
+# component reaches every independent function, cap: captures, s independent functions (0 = as many
+# as fit), frac: summary-event target in ppm of the cap (parameters of a never-called function fill
+# up), dl: +locals, pay: payload variant, pad/pd: second cap and offset from it
+QUICK_SCC = [
+    "scc/k=300/d=3/s=50/frac=10000/pay=3",                       # 1 % of the summary-event cap
+    "scc/k=1000/d=5/s=40/pay=2",                                 # ring of 1000, 6 %
+    "scc/k=200/kp=50/d=2/hub=1/cap=1/s=300/frac=250000/pay=1",   # 25 %, component reaches everything
+    "scc/k=500/kp=120/d=3/s=900/frac=500000/pay=5",              # 50 %
+    "scc/k=100/d=5/hub=1/cap=1/s=1000/frac=1000000/pay=6",       # last size below the cap, captures, reaches everything
+    "scc/k=100/d=1/s=0/frac=1000000/dl=1",                       # first size above the summary-event cap
+    "scc/k=60/d=2/s=30/frac=1000000/pay=4",                      # few functions, 88 000 locals, just below
+    "scc/k=150/d=4/s=500/pad=fnblocks", "scc/k=150/d=4/s=500/pad=fnblocks/pd=1",
+    "scc/k=150/kp=60/d=1/s=500/pad=liveness", "scc/k=150/kp=60/d=1/s=500/pad=liveness/pd=1",
+    "scc/k=50/d=2/s=4/pad=locals", "scc/k=50/d=2/s=4/pad=locals/pd=1",
+    "scc/k=150/d=1/s=500/pad=statements",
+]
+QUICK_SCC_RANDOM = 4
+THOROUGH_SCC = (
+    [f"scc/k={k}/d={d}/s={s}/frac={frac}/pay={100 + d}"
+     for frac in (10000, 50000, 250000, 500000, 900000, 1000000)
+     for d, k, s in ((1, 120, 0), (2, 300, 0), (3, 700, 0), (4, 200, 0), (5, 1000, 0))
+     if not (frac == 10000 and k > 300) and not (frac <= 50000 and k > 700)]
+    + [f"scc/k=250/kp=250/d={d}/hub={int(d in (2, 3, 5))}/cap=1/s={800 if d in (2, 3, 5) else 0}/frac=1000000/dl={dl}/pay={200 + d}"
+       for d in (1, 2, 3, 4, 5) for dl in (0, 1)]
+    + [f"scc/k=200/d=3/s=400/pad={pad}/pd={pd}/pay=7" for pad in ("statements", "scopes", "fnblocks", "liveness") for pd in (-1, 0, 1)]
+    + [f"scc/k=52/d=5/s=4/pad=locals/pd={pd}/pay=8" for pd in (-1, 0, 1)]
+)
+THOROUGH_SCC_RANDOM = 40
+
 
 def deltas(case):
     return [0, 1] if case == "summaryf" else [-1, 0, 1]
@@ -54,7 +102,9 @@ def deltas(case):
 def run(ck: Check):
     ck.rule = ("lim: synthetic counts with caps at observed-1/observed/observed+1 per stage; prog: random programs "
                "(functions, loops, dead tails, nested definitions, a few resolver-error programs) with caps around "
-               "the observed values; e2e: one program per reachable DEFAULT cap at cap-1 / cap / cap+1. "
+               "the observed values; e2e: one program per reachable DEFAULT cap at cap-1 / cap / cap+1; scc: programs "
+               "with a strongly connected call-graph component of 50-1000 functions next to independent functions, at "
+               "1 %-100 % of the summary-event cap and on second caps, compared with their ring-of-3 twins. "
                "non-trivial = the deciding stage sits within 1 of its cap, or a later stage is above its cap as well "
                "(so the stage order matters); distinct by request text")
     ck.build_harness()
@@ -71,7 +121,9 @@ def run(ck: Check):
         classify(ck, reqs, res)
         del reqs, res
     e2e(ck, QUICK_E2E, "debug")
+    scc(ck, corpus_scc() + QUICK_SCC, QUICK_SCC_RANDOM, label="limits-scc")
     if ck.tier == "thorough":
+        scc(ck, THOROUGH_SCC, THOROUGH_SCC_RANDOM, big=True, label="limits-scc-thorough")
         e2e(ck, SLOW_E2E, "debug")
         ck.build_harness("release")
         e2e(ck, RELEASE_E2E, "release")
@@ -238,6 +290,149 @@ def _unhex(s):
         return s[:60]
 
 
+# --------------------------------------------------------------------------------------------- scc
+def corpus_scc():
+    """Specs kept in corpus/C18/*.cases (one per line, `#` comments): past failures, run first."""
+    d = os.path.join(VERIF, "corpus", "C18")
+    out = []
+    for fn in sorted(os.listdir(d)):
+        if fn.endswith(".cases"):
+            out += [l.split("#")[0].strip() for l in open(os.path.join(d, fn))]
+    return [l for l in out if l]
+
+
+def scc_requests(ck, specs, nrandom=0, big=False, profile="debug", seed=None):
+    """-> (request lines, full spec of each line) or None."""
+    cmd = [ck.nvh(profile), "limits", "gen-scc", "--seed", str(ck.seed if seed is None else seed), "--n", str(nrandom)]
+    if specs:
+        cmd += ["--case", ",".join(specs)]
+    if big:
+        cmd += ["--big"]
+    p = sh(cmd, timeout=3600)
+    err = p.stderr.decode(errors="replace").splitlines()
+    if p.returncode != 0:
+        ck.broken.append({"kind": "scc-generator-failed", "what": "\n".join(err[-3:])[-600:]})
+        return None
+    return p.stdout.decode().splitlines(), [l.split(" ", 1)[1] for l in err if l.startswith("SCC-SPEC ")]
+
+
+def scc(ck, specs, nrandom, big=False, label="limits-scc"):
+    made = scc_requests(ck, specs, nrandom, big)
+    if not made:
+        return
+    reqs, names = made
+    nd, nf = len(ck.disagreements), len(ck.oracle_fails)
+    res = ck.corr("limits", reqs, label=label, timeout=3600)
+    # never keep megabytes of request text in the evidence / replay files: the spec regenerates it
+    for d in ck.disagreements[nd:] + ck.oracle_fails[nf:]:
+        i = d["line"] - 1
+        name = names[i] if i < len(names) else "?"
+        d["request"] = f"scc-case {name}"
+        d["history"] = [f"scc-case {name}"]
+        d["scc_case"] = name
+    cov = ck.extra_cov.setdefault("scc", {})
+    caps = default_caps(ck)
+    compared = 0
+    for l in res["stderr"]:
+        if not l.startswith("SCC "):
+            continue
+        compared += 1
+        info = dict(kv.split("=", 1) for kv in l.split(" ")[2:] if "=" in kv and not kv.startswith("spec="))
+        spec = l.split(" spec=", 1)[1].split(" obs=")[0]
+        ck.count("scc_programs")
+        tripped = info.get("limit") != "none"
+        ck.count("scc_tripped" if tripped else "scc_within")
+        if not tripped and info.get("paywarn", "0") != "0" and info.get("payplan", "0") != "0":
+            ck.count("scc_within_with_summary_dependent_warnings_and_prunings")
+        ck.nontrivial_case(f"scc {spec}")
+        obs = [int(x) for x in info.get("obs", "").split(",") if x]
+        close = {}
+        if caps and len(obs) == 11:
+            close = {METRICS[j]: round(100.0 * obs[j] / caps[j], 3) for j in range(11) if caps[j] and 100 * obs[j] >= caps[j]}
+        cov[spec] = {"limit": info.get("limit"), "payload_warnings": info.get("paywarn"), "payload_pruned": info.get("payplan"),
+                     "same_as_twin": info.get("same"), "functions": obs[0] if obs else None, "percent_of_caps": close}
+        k = int(spec.split("/k=")[1].split("/")[0])
+        ck.count("scc_component_%s" % ("50-99" if k < 100 else "100-299" if k < 300 else "300-699" if k < 700 else "700-1000"))
+        pct = close.get("summary_events", 0)
+        ck.count("scc_summary_events_%s" % ("le2pct" if pct <= 2 else "le10pct" if pct <= 10 else "le60pct" if pct <= 60
+                                             else "le99pct" if pct <= 99 else "le100pct" if pct <= 100 else "above"))
+    if compared != len(reqs):
+        ck.broken.append({"kind": "scc-twin-oracle-did-not-run", "what": f"{len(reqs)} programs, {compared} twin comparisons"})
+
+
+def default_caps(ck):
+    """DEFAULT_CAPS of the crate under test (the same dump Gen/Caps.lean is written from)."""
+    p = sh([ck.nvh(), "dump-tables"], timeout=600)
+    try:
+        return [int(x) for x in json.loads(p.stdout.decode())["limits_default_caps"]]
+    except (ValueError, KeyError, TypeError):
+        return None
+
+
+def scc_fields(spec):
+    return dict(kv.split("=", 1) for kv in spec.split("/")[1:])
+
+
+def scc_spec(fields):
+    return "scc/" + "/".join(f"{k}={v}" for k, v in fields.items())
+
+
+def scc_fails(ck, spec, key=None):
+    """ORACLE-FAIL messages of one spec (optionally only those starting with the words `key`)."""
+    made = scc_requests(ck, [spec])
+    if not made:
+        return []
+    msgs = [l.split(" ", 2)[2] for l in fails_oracle(ck, made[0])]
+    return [m for m in msgs if key is None or m.split(" ")[0:3] == key]
+
+
+def shrink_scc(ck, spec, what):
+    """Generator-parameter shrinking: drop options, then halve the sizes, while the same oracle fails."""
+    key = what.split(" ")[0:3]
+    cur = scc_fields(spec)
+    tries = 0
+
+    def attempt(changes):
+        nonlocal cur, tries
+        cand = dict(cur)
+        cand.update(changes)
+        if cand == cur or tries >= 24:
+            return False
+        tries += 1
+        if scc_fails(ck, scc_spec(cand), key):
+            cur = cand
+            return True
+        return False
+
+    if cur.get("s") == "0":
+        # resolve `as many as fit` to a number first
+        src = sh([ck.nvh(), "limits", "src", "--case", scc_spec(cur)], timeout=600).stdout.decode()
+        attempt({"s": str(max(4, src.count("\ndo s")))})
+    for ch in ({"pad": "none", "pd": "0"}, {"frac": "0", "dl": "0"}, {"kp": "0"}, {"hub": "0"}, {"cap": "0"}, {"pay": "0"}, {"d": "5"}):
+        attempt(ch)
+    for field, lo in (("s", 4), ("k", 3)):
+        while cur.get(field, "0").isdigit() and int(cur[field]) // 2 >= lo and attempt({field: str(int(cur[field]) // 2)}):
+            pass
+        if cur.get(field, "0").isdigit() and int(cur[field]) * 3 // 4 >= lo:
+            attempt({field: str(int(cur[field]) * 3 // 4)})
+    return scc_spec(cur)
+
+
+def scc_replay_record(ck, spec, what):
+    """What goes into the replay file for a failing scc case: the generator parameters, how to print the
+    program, the differing warnings / prunings, and the program itself when it is small."""
+    small = shrink_scc(ck, spec, what)
+    diffs = scc_fails(ck, small) or [what]
+    rec = {"scc_cases": [small], "found_as": spec, "generator_parameters": scc_fields(small),
+           "differences": diffs[:6],
+           "print_program": f"nvh limits src --case {small}    # with --twin: the small-component twin it is compared with"}
+    for key, extra in (("program", []), ("twin_program", ["--twin"])):
+        p = sh([ck.nvh(), "limits", "src", "--case", small] + extra, timeout=600)
+        src = p.stdout.decode(errors="replace")
+        rec[key] = src if len(src) <= 60000 else src[:3000] + f"\n… [{len(src)} bytes, see print_program] …\n" + src[-3000:]
+    return rec
+
+
 # -------------------------------------------------------------------------------------- exhaustive
 def exhaustive(ck):
     """Every function body of <= 3 statements over 38 statement forms (simple, return, if / if-else /
@@ -292,12 +487,16 @@ def search(ck):
                 found = list(ck.oracle_fails)
                 break
     if found:
-        f = min(found, key=lambda x: ("e2e_case" in x, len(x["request"])))   # a small program if there is one
+        # a small program if there is one; a generated case with parameters before a fixed boundary program
+        f = min(found, key=lambda x: ("e2e_case" in x, "scc_case" in x, len(x["request"])))
         req, what = f["request"], f["what"]
         replay = {"kind": "impl-vs-oracle", "family": "limits", "what": what,
                   "replay_cmd": "./check C18 --replay <this file>", "broken": ck.broken[:5],
                   "disagreements": [_slim(d) for d in ck.disagreements[:3]]}
-        if "e2e_case" in f:
+        if "scc_case" in f:
+            replay.update(scc_replay_record(ck, f["scc_case"], what))
+            replay["what"] = replay["differences"][0]
+        elif "e2e_case" in f:
             replay["e2e_cases"] = [f["e2e_case"]]
         else:
             req = shrink(ck, req, what)
@@ -310,8 +509,9 @@ def search(ck):
                                      "correspondence no longer checks; no program on which the property fails "
                                      "was found",
                              "broken": ck.broken[:10], "disagreements": [_slim(d) for d in ck.disagreements[:5]],
-                             "requests": [d["request"] for d in ck.disagreements[:3] if "e2e_case" not in d],
-                             "e2e_cases": [d["e2e_case"] for d in ck.disagreements[:3] if "e2e_case" in d]},
+                             "requests": [d["request"] for d in ck.disagreements[:3] if "e2e_case" not in d and "scc_case" not in d],
+                             "e2e_cases": [d["e2e_case"] for d in ck.disagreements[:3] if "e2e_case" in d],
+                             "scc_cases": [d["scc_case"] for d in ck.disagreements[:3] if "scc_case" in d]},
                             no_input_found=True)
 
 
@@ -327,6 +527,11 @@ def _program_of(req):
     if w[0] == "crash" and len(w) == 2:
         try:
             return bytes.fromhex(w[1]).decode(errors="replace")
+        except ValueError:
+            return None
+    if w[0] == "e2e" and len(w) > 3:
+        try:
+            return bytes.fromhex(w[2]).decode(errors="replace")
         except ValueError:
             return None
     if w[0] == "prog" and len(w) > 13:
@@ -380,6 +585,11 @@ def replay(ck, data):
     for case in data.get("e2e_cases", []):
         c, d = case.split(":")
         reqs += e2e_requests(ck, c, int(d), "debug") or []
+    if data.get("scc_cases"):
+        print("generator parameters:", json.dumps(data.get("generator_parameters", {})))
+        for d in data.get("differences", []):
+            print("recorded difference:", d)
+        reqs += (scc_requests(ck, data["scc_cases"], seed=data.get("seed")) or ([], []))[0]
     if not reqs:
         print("nothing to replay: the file names broken obligations only")
         print(json.dumps(data.get("broken", []), indent=1))
